@@ -129,8 +129,8 @@ func bgvEvaluatorTarget() *Target {
 
 	t := &Target{
 		Name: "bgv.Evaluator", Envs: []string{"bgv", "bfv", "bgv-1p"},
-		Type: reflect.TypeOf(&bgv.Evaluator{}),
-		New:  func(e *Env) interface{} { return bgv.NewEvaluator(e.BGV, e.Evk, e.ScaleInvariant) },
+		Type:   reflect.TypeOf(&bgv.Evaluator{}),
+		New:    func(e *Env) interface{} { return bgv.NewEvaluator(e.BGV, e.Evk, e.ScaleInvariant) },
 		Shared: func(e *Env) []interface{} { return []interface{}{e.Evk} },
 		NotTabled: map[string]string{
 			"BuffQ": "accessor returning the internal buffers", "GetParameters": "accessor", "GetRLWEParameters": "accessor",
@@ -200,7 +200,9 @@ func bgvEvaluatorTarget() *Target {
 		{Method: "DropLevel", Doc: "reduces the level of op0 by levels (in place)",
 			Kinds: []Kind{{Name: "ct1/levels=1", Names: []string{"levels"}, Make: func(e *Env, g *Gen) []interface{} { return []interface{}{1} }},
 				{Name: "ct1/levels=0", Names: []string{"levels"}, Make: func(e *Env, g *Gen) []interface{} { return []interface{}{0} }}},
-			Out: &OutSpec{Accumulates: true, New: func(e *Env, in []interface{}, _, _ int) interface{} { return NewGen("DropLevel").Ct(e, 1, e.MaxLevel()) }},
+			Out: &OutSpec{Accumulates: true, New: func(e *Env, in []interface{}, _, _ int) interface{} {
+				return NewGen("DropLevel").Ct(e, 1, e.MaxLevel())
+			}},
 			Call: func(rcv interface{}, in []interface{}, o interface{}) (interface{}, error) {
 				rcv.(bgvE).DropLevel(asCt(o), in[0].(int))
 				return o, nil
